@@ -107,6 +107,12 @@ CLAIMED = {
                   'tied by regenerating automaton, actions and certificate on every run, by comparing the three stack heights around every callback of thousands of generated and mutated inputs with the effect table, and by a sanitizer build over parse_XML_buffer / parse_XTA / every xta_part_t / parseProperty x DocumentBuilder / PrettyPrinter / TigaPropertyBuilder x both syntaxes.',
              design='4/C01',
              note='Level is proof for the stack discipline only (partial): null attributes and current-object pointers of the XML reader and builder, the statement-block / field / label stacks, libxml2, flex, memory safety of the C++ runtime and running time are observed by the sanitizer stream, not proved.'),
+ 'C16': dict(technique='Coq: the LR stack-discipline theorem instantiated for frames, expression and type fragments (no block can reach below what it pushed), builder-model theorems on failed edges and labels without an edge, append-only declaration model; relational fault-injection oracle on generated accepted models with symbol bindings dumped',
+             text='C16_block_cannot_reach_below_frames / _fragments / _types (every token stream, every recovery); C16_failed_edge_isolated, C16_labels_need_an_edge (any callback sequence); C16_declaration_prefix_kept. '
+                  'Tied by parsing each generated accepted model with one fault in one invariant / rate / guard / synchronisation / update / probability label (token mutations at random positions and faults aimed at mid-rule actions) and comparing, at the builder stage and with bindings (name@frame:type), '
+                  'every dump line outside the faulted field with the fault-free document, and the path of every diagnostic with the faulted label; declaration blocks with one truncated / mutated declaration must keep all earlier declarations.',
+             design='4/C16',
+             note='The upper half (a failed block leaves nothing behind) is refuted on the pinned tree: known findings C16-frame-leak and C16-stray-fragment-location. The "CSP and IO synchronisations cannot be mixed" diagnostic relates two labels and is not counted as stray.'),
 }
 NOT_YET = 'check not built yet in this revision (work in progress, see DESIGN.md section 7 staging)'
 m = dict(version=1, setup_cmd='tools/setup.sh',
